@@ -3,7 +3,7 @@ ALPHABET = "ABCDEFGHIJKLMNOPQRSTUVWXYZabcdefghijklmnopqrstuvwxyz0123456789-_"
 _DEC = {ord(c): i for i, c in enumerate(ALPHABET)}
 
 
-def enc(data: bytes) -> str:
+def enc_table(data: bytes) -> str:
     out = []
     n = len(data)
     for i in range(0, n - n % 3, 3):
@@ -19,7 +19,7 @@ def enc(data: bytes) -> str:
     return "".join(out)
 
 
-def dec(s) -> bytes:
+def dec_table(s) -> bytes:
     """Strict decoder: only the 64 characters, no padding, no impossible length.
     Non-zero trailing bits are tolerated (reported by trailing_bits())."""
     if isinstance(s, str):
@@ -46,6 +46,34 @@ def dec(s) -> bytes:
         v = (vals[-3] << 12) | (vals[-2] << 6) | vals[-1]
         out += bytes(((v >> 10) & 255, (v >> 2) & 255))
     return bytes(out)
+
+
+# Fast path for bulk token handling: the strictness rules (alphabet, padding, length) are enforced
+# here by table membership; only the 6-bit packing itself is delegated to binascii.  The C19 check
+# and the self-test compare it with the pure table codec above.
+import binascii as _ba
+
+_ALPHA_B = ALPHABET.encode()
+_TO_STD = bytes.maketrans(b"-_", b"+/")
+_FROM_STD = bytes.maketrans(b"+/", b"-_")
+
+
+def enc(data: bytes) -> str:
+    return _ba.b2a_base64(bytes(data), newline=False).rstrip(b"=").translate(_FROM_STD).decode("ascii")
+
+
+def dec(s) -> bytes:
+    if isinstance(s, str):
+        try:
+            s = s.encode("latin-1")
+        except UnicodeEncodeError:
+            raise ValueError("non-latin character")
+    if s.translate(None, _ALPHA_B):
+        raise ValueError("character outside the base64url alphabet")
+    n = len(s)
+    if n % 4 == 1:
+        raise ValueError("impossible length")
+    return _ba.a2b_base64(s.translate(_TO_STD) + b"=" * (-n % 4))
 
 
 def is_canonical(s: str) -> bool:
